@@ -2,6 +2,8 @@ import ComposeVerif.Ops.Common
 import ComposeVerif.Model.Val
 import ComposeVerif.Model.Path
 import ComposeVerif.Model.MapOrder
+import ComposeVerif.Model.Validate
+import ComposeVerif.Model.C02ExtendsX
 import ComposeVerif.Gen.Tables
 /-! line-protocol ops for C02 (determinism): path matching, the regenerated rule tables, and the
 map→sequence decoders of `Model/MapOrder.lean`. -/
@@ -146,7 +148,49 @@ def extendsOp : Handler := fun args =>
       | some mf => Json.mkObj [("ok", Val.toJson (.map (mf.map fun kv => (kv.1, Val.map kv.2.2))))]
   | _ => Json.mkObj [("bad", "services")]
 
+/-- `ApplyExtends` with references into other files, for each listed visit order.
+args: `main` = `[[name, null | ref | [file, ref], bodyVal]…]`, `files` = `{file: [[name, extendsOrNull, bodyVal]…]}`,
+`orders` = `[[name…]…]`.  One outcome per order. -/
+def extendsXOp : Handler := fun args =>
+  let body (j : Json) : Option Val.KVs := match Val.ofJson j with | .ok (.map kvs) => some kvs | _ => none
+  let plain (a : Array Json) : Option (AL (XSvc Val.KVs)) := a.toList.mapM fun e => match e with
+    | .arr #[.str n, ext, b] => (body b).map fun kvs => (n, ((match ext with | .str r => some r | _ => none), kvs))
+    | _ => none
+  let files : Option (AL (AL (XSvc Val.KVs))) := match args.getObjVal? "files" with
+    | .ok (.obj kv) => kv.toList.mapM fun (f, v) => match v with
+      | .arr a => (plain a).map fun m => (f, m)
+      | _ => none
+    | _ => none
+  let main : Option (AL (ExtX.XS Val.KVs)) := match args.getObjVal? "main" with
+    | .ok (.arr a) => a.toList.mapM fun e => match e with
+      | .arr #[.str n, ext, b] => (body b).map fun kvs =>
+          (n, ((match ext with
+            | .str r => ExtX.Ref.same r
+            | .arr #[.str f, .str r] => ExtX.Ref.file f r
+            | _ => ExtX.Ref.none), kvs))
+      | _ => none
+    | _ => none
+  match files, main, args.getObjVal? "orders" with
+  | some fs, some m, .ok (.arr os) =>
+    let mrg : Val.KVs → Val.KVs → Val.KVs := fun b o => match mergeGenericKVs b o with | .ok r => r | .error _ => []
+    let outs := os.map fun o =>
+      let order : List String := match o with | .arr a => a.toList.filterMap (fun x => match x with | .str s => some s | _ => none) | _ => []
+      match ExtX.applyAllX mrg fs (m.length + 1) order m with
+      | none => Json.mkObj [("err", true)]
+      | some mf => Json.mkObj [("ok", Val.toJson (.map (mf.map fun kv => (kv.1, Val.map kv.2.2))))]
+    Json.mkObj [("outs", Json.arr outs)]
+  | _, _, _ => Json.mkObj [("bad", "args")]
+
+/-- `validation.Validate` on a whole tree: outcome class (`Props/C02Stages.validate_stage_perm` is about this function) -/
+def validateOp : Handler := fun args =>
+  if getBool args "skip" then Json.mkObj [("skip", true)] else
+  withVal args "t" fun t =>
+    match CV.Validate.validate t with
+    | .ok => Json.mkObj [("class", "ok")]
+    | _ => Json.mkObj [("class", "fail")]
+
 def handlers : List (String × Handler) := [
+  ("c02.validate", validateOp), ("c02.extendsX", extendsXOp),
   ("c02.pmatch", pmatchOp), ("c02.table", tableOp), ("c02.ruleAt", ruleAtOp), ("c02.intoSeq", intoSeqOp),
   ("c02.ssh", sshOp), ("c02.hosts", hostsOp), ("c02.mapping", mappingOp), ("c02.merge", mergeOp), ("c02.mergeSeq", mergeSeqOp),
   ("c02.newGraph", newGraphOp), ("c02.extends", extendsOp)]
